@@ -163,6 +163,8 @@ package main
 //@ func (*OAuthProxy).ManualSignIn
 //@ prop C01
 //@ ensures[ok-only-if-validated] ret1 ==> called(Validate) && ret(Validate) && arg(Validate, 0) == ret0 && ret0 != ""
+//@ prop C19 C01
+//@ ensures[status-for-the-sign-in-page] ret2 == 200 || ret2 == 400 || ret2 == 401
 
 //@ func (*OAuthProxy).SignInPage
 //@ prop C13 C11 C19
